@@ -184,5 +184,6 @@ def check(tier):
     for name, m in mut:
         sub = [x for x in ms if len(x[1]["reactants"]) >= 2] + [("massaction", dict(reactants=["A"], products=["C", "C"], named=True), False)]
         ck.add_mutant(name, m, "export", "harness.C14", "export_job", dict(cases=sub))
+    ck.validate = ['sbml']
     ck.run()
     return ck.finish(replay=REPLAY)
